@@ -348,6 +348,15 @@ pub fn ix_two_hop(l: &Ledger, w: &W3, one: usize, two: usize, a: HopArgs, v2: bo
     let p2 = w.pool(two);
     let tas1 = world::swap_tick_arrays(p1, p1.state(l).tick_current_index, a.a_to_b_one);
     let tas2 = world::swap_tick_arrays(p2, p2.state(l).tick_current_index, a.a_to_b_two);
+    ix_two_hop_packaged(l, w, one, two, a, v2, tas1, tas2, &[], &[])
+}
+
+/// The same two-hop with an explicit packaging of the tick arrays: the three static slots of each leg as given, plus (v2 only)
+/// supplemental tick arrays for leg one / leg two passed as remaining accounts.
+#[allow(clippy::too_many_arguments)]
+pub fn ix_two_hop_packaged(l: &Ledger, w: &W3, one: usize, two: usize, a: HopArgs, v2: bool, tas1: [Pubkey; 3], tas2: [Pubkey; 3], sup1: &[Pubkey], sup2: &[Pubkey]) -> Instruction {
+    let p1 = w.pool(one);
+    let p2 = w.pool(two);
     if v2 {
         let m_in = in_mint(p1, a.a_to_b_one);
         let m_mid = out_mint(p1, a.a_to_b_one);
@@ -379,6 +388,21 @@ pub fn ix_two_hop(l: &Ledger, w: &W3, one: usize, two: usize, a: HopArgs, v2: bo
             memo_program: MEMO,
         }
         .to_account_metas(None);
+        let mut metas = metas;
+        let mut slices = vec![];
+        if !sup1.is_empty() {
+            for k in sup1 {
+                metas.push(AccountMeta::new(*k, false));
+            }
+            slices.push(whirlpool::util::RemainingAccountsSlice { accounts_type: whirlpool::util::AccountsType::SupplementalTickArraysOne, length: sup1.len() as u8 });
+        }
+        if !sup2.is_empty() {
+            for k in sup2 {
+                metas.push(AccountMeta::new(*k, false));
+            }
+            slices.push(whirlpool::util::RemainingAccountsSlice { accounts_type: whirlpool::util::AccountsType::SupplementalTickArraysTwo, length: sup2.len() as u8 });
+        }
+        let rai = if slices.is_empty() { None } else { Some(whirlpool::util::RemainingAccountsInfo { slices }) };
         world::ix(
             metas,
             wi::TwoHopSwapV2 {
@@ -389,7 +413,7 @@ pub fn ix_two_hop(l: &Ledger, w: &W3, one: usize, two: usize, a: HopArgs, v2: bo
                 a_to_b_two: a.a_to_b_two,
                 sqrt_price_limit_one: a.limit_one,
                 sqrt_price_limit_two: a.limit_two,
-                remaining_accounts_info: None,
+                remaining_accounts_info: rai,
             }
             .data(),
         )
